@@ -13,12 +13,23 @@ R06.4  samplers: ErrorModel.sample -> (n_times, n_samples),
 R05.7  PopulationModel.compute_individual_parameters(parameters, eta of shape
        (n_ids, n_dim)) -> (n_ids, n_dim) with those axes (not a re-laid-out
        array of the same size), for flat parameters.
+R05.8  PopulationModel._shape(score, dpsi, dtheta, reduce, flattened): the
+       documented packing of the sensitivities for all four flag
+       combinations — `reduce` gives one vector [dpsi (n_ids > n_dim) |
+       dtheta summed over individuals (n_param_per_dim > n_dim)] whatever
+       `flattened` is; `flattened` alone flattens the summed dtheta; neither
+       leaves dtheta as (n_ids, n_param_per_dim, n_dim).
+R17.5  evaluateS1 of the log-pdf classes: on every early exit (the guard
+       that answers a rejected point with an infinite score) the gradient
+       that is returned has one entry per parameter — its length derives from
+       the whole parameter vector or the published count, not from a block of
+       it (the prior's block, one likelihood's block).
 """
 import ast
 
 import sympy as sp
 
-from ..loader import U
+from ..loader import U, norm_stmt
 from ..shapes import ShapeLifter, Arr, Ax, TOP, eq, nest_eq, nest_str
 from ..term import Opaque
 from .layout import (sym, _class_invariants, _elementary, _emit_events, N_DIM,
@@ -195,3 +206,198 @@ def r05_7(ctx, repo):
                             nest_str(a.nest) for a in val.axes), engine=ENG)
     if n < 8:
         ctx.error(rule, 'only %d configurations analysed (floor 8)' % n)
+
+
+def r05_8(ctx, repo):
+    rule = 'R05.8'
+    NPP = sym('n_param_per_dim')
+    n = 0
+    # the pooled / heterogeneous models override _shape with packings of
+    # their own (no individual block / no population block); the documented
+    # contract is that of the base class, which every other model inherits
+    for cls in ['PopulationModel']:
+        fn = repo.cls(cls).methods.get('_shape')
+        if fn is None:
+            continue
+        construct = '%s._shape' % cls
+        where = repo.loc(fn, cls, '_shape')
+        pnames = [a.arg for a in fn.args.args][1:]
+        if len(pnames) != 5:
+            ctx.error(rule, '%s: signature %s not (score, dpsi, dtheta, '
+                      'reduce, flattened)' % (construct, pnames))
+            continue
+        for red in (True, False):
+            for flat in (True, False):
+                n += 1
+                lf = ShapeLifter(repo, cls, flags={pnames[3]: red,
+                                                   pnames[4]: flat})
+                env = {pnames[0]: Opaque('score'),
+                       pnames[1]: Arr([Ax(N_IDS), Ax(N_DIM)]),
+                       pnames[2]: Arr([Ax(N_IDS), Ax(NPP), Ax(N_DIM)]),
+                       pnames[3]: red, pnames[4]: flat}
+                st, val = _ret_of(lf, fn, env, cls)
+                site = '%s[reduce=%s, flattened=%s]' % (construct, red, flat)
+                if st != 'ret':
+                    ctx.error(rule, '%s: %s' % (site, val))
+                    continue
+                if _emit_events(ctx, rule, repo, cls, fn, lf, site):
+                    continue
+                vals = list(val) if isinstance(val, (tuple, list)) or hasattr(
+                    val, '__iter__') and not isinstance(val, Arr) else [val]
+                ok = False
+                if red:
+                    want = 'one vector [dpsi (n_ids > n_dim) | summed ' \
+                           'dtheta (n_param_per_dim > n_dim)]'
+                    if len(vals) == 2 and isinstance(vals[1], Arr) \
+                            and vals[1].ndim == 1 and vals[1].parts \
+                            and len(vals[1].parts) == 2:
+                        a, b = vals[1].parts
+                        ok = nest_eq(a.axes[0].nest, (
+                            (N_IDS.name, N_IDS), (N_DIM.name, N_DIM))) \
+                            and nest_eq(b.axes[0].nest, (
+                                (NPP.name, NPP), (N_DIM.name, N_DIM)))
+                elif flat:
+                    want = '(score, dpsi (n_ids, n_dim), summed dtheta ' \
+                           'flattened (n_param_per_dim > n_dim))'
+                    ok = len(vals) == 3 and _check_axes(
+                        vals[1], (N_IDS, N_DIM)) and isinstance(
+                        vals[2], Arr) and vals[2].ndim == 1 and nest_eq(
+                        vals[2].axes[0].nest, ((NPP.name, NPP),
+                                               (N_DIM.name, N_DIM)))
+                else:
+                    want = '(score, dpsi (n_ids, n_dim), dtheta (n_ids, ' \
+                           'n_param_per_dim, n_dim))'
+                    ok = len(vals) == 3 and _check_axes(
+                        vals[1], (N_IDS, N_DIM)) and _check_axes(
+                        vals[2], (N_IDS, NPP, N_DIM))
+                if ok:
+                    ctx.ok(rule, where, site, 'returns ' + want, engine=ENG)
+                else:
+                    ctx.violation(
+                        rule, where, site, 'packing',
+                        '_shape returns %s; documented: %s' % (
+                            ', '.join(repr(v) for v in vals[1:]), want),
+                        engine=ENG)
+    if n < 4:
+        ctx.error(rule, 'only %d flag combinations analysed (floor 4)' % n)
+
+
+def _len_prov(e, fn, seen=(), at=None):
+    """Length provenance of an array / count expression inside evaluateS1:
+    'FULL' (the whole parameter vector), 'PART' (a block of it), None."""
+    if isinstance(e, ast.Call):
+        f = U(e.func)
+        if f == 'len' and e.args:
+            return _len_prov(e.args[0], fn, seen, at)
+        if f in ('np.asarray', 'np.array', 'np.copy', 'pints.vector',
+                 'np.shape', 'np.size', 'int', 'np.ravel') and e.args:
+            return _len_prov(e.args[0], fn, seen, at)
+        if f in ('self.n_parameters',):
+            return 'FULL'
+        if isinstance(e.func, ast.Attribute) and e.func.attr in (
+                'evaluateS1', 'compute_sensitivities') and e.args:
+            # gradient w.r.t. what was handed in
+            return _len_prov(e.args[0], fn, seen, at)
+        if isinstance(e.func, ast.Attribute) and e.func.attr in (
+                'flatten', 'ravel', 'copy'):
+            return _len_prov(e.func.value, fn, seen, at)
+        return None
+    if isinstance(e, ast.Attribute):
+        if e.attr in ('shape', 'size'):
+            return _len_prov(e.value, fn, seen, at)
+        if U(e) == 'self._n_parameters':
+            return 'FULL'
+        return None
+    if isinstance(e, ast.Tuple) and len(e.elts) == 1:
+        return _len_prov(e.elts[0], fn, seen, at)
+    if isinstance(e, ast.Subscript):
+        base = _len_prov(e.value, fn, seen, at)
+        sl = e.slice
+        if isinstance(sl, ast.Slice):
+            if sl.lower is None and sl.upper is None:
+                return base
+            return 'PART' if base else None
+        if isinstance(e.value, ast.Attribute) and e.value.attr == 'shape':
+            return base
+        if isinstance(sl, ast.Constant) and isinstance(e.value, ast.Call):
+            # X.evaluateS1(a)[1]
+            return _len_prov(e.value, fn, seen, at)
+        return None
+    if isinstance(e, ast.Name):
+        if e.id in seen:
+            return None
+        params = [a.arg for a in fn.args.args if a.arg != 'self']
+        defs = []
+        for st in ast.walk(fn):
+            if isinstance(st, ast.Assign) and (at is None
+                                               or st.lineno < at):
+                for t in st.targets:
+                    if isinstance(t, ast.Name) and t.id == e.id:
+                        defs.append(st.value)
+                    if isinstance(t, (ast.Tuple, ast.List)):
+                        for i, x in enumerate(t.elts):
+                            if isinstance(x, ast.Name) and x.id == e.id:
+                                defs.append(st.value)
+        provs = {_len_prov(d, fn, seen + (e.id,), at) for d in defs}
+        if params and e.id == params[0]:
+            provs.discard(None) if provs - {None} else None
+            provs.add('FULL')
+            # `parameters = np.asarray(parameters)` keeps the length
+            provs.discard(None)
+        if len(provs) == 1:
+            return provs.pop()
+        return None
+    return None
+
+
+def r17_5(ctx, repo):
+    rule = 'R17.5'
+    n = 0
+    for cname, c in sorted(repo.classes.items()):
+        if c.relpath != 'chi/_log_pdfs.py':
+            continue
+        fn = c.methods.get('evaluateS1')
+        if fn is None:
+            continue
+        construct = '%s.evaluateS1' % cname
+        # returns that are not the last statement of the body: early exits
+        for r in ast.walk(fn):
+            if r is fn.body[-1]:
+                continue
+            for _ in (0,):
+                if not (isinstance(r, ast.Return) and isinstance(
+                        r.value, ast.Tuple) and len(r.value.elts) == 2):
+                    continue
+                g = r.value.elts[1]
+                if not (isinstance(g, ast.Call) and U(g.func) in (
+                        'np.full', 'np.zeros', 'np.ones', 'np.empty')):
+                    continue
+                shape = None
+                for k in g.keywords:
+                    if k.arg == 'shape':
+                        shape = k.value
+                if shape is None and g.args:
+                    shape = g.args[0]
+                n += 1
+                where = repo.loc(r, cname, 'evaluateS1')
+                pv = _len_prov(shape, fn, (), r.lineno) if shape is not None \
+                    else None
+                if pv == 'FULL':
+                    ctx.ok(rule, where, construct,
+                           'the early exit returns one gradient entry per '
+                           'parameter (`%s`)' % U(shape)[:40])
+                elif pv == 'PART':
+                    ctx.violation(
+                        rule, where, construct, 'guard gradient length',
+                        '`%s` sizes the gradient of the early exit by `%s`, '
+                        'the length of a block of the parameter vector: the '
+                        'gradient has fewer entries than n_parameters() / '
+                        'get_parameter_names() report' % (
+                            norm_stmt(r)[:50], U(shape)[:40]))
+                else:
+                    ctx.error(rule, '%s: length `%s` of the early-exit '
+                              'gradient not derived' % (
+                                  construct, U(shape)[:40] if shape
+                                  is not None else '?'))
+    if n < 2:
+        ctx.error(rule, 'only %d early exits found (floor 2)' % n)
